@@ -2,7 +2,7 @@
    `rescheduled` flag is clear is going to be kicked whenever the queue can be claimed.  Invariant Inv_K and its preservation. *)
 From stdpp Require Import list numbers option.
 From RecordUpdate Require Import RecordUpdate.
-From L2 Require Import Model Base Own Jobs Shape OpShape DwInv Wake WakeInv WakeLem WakeStep1 WakeStep2 WakeStep3 WakeStep4 CoverStep Task TaskInv.
+From L2 Require Import Model Base Own Jobs Shape OpShape DwInv Wake WakeInv WakeLem WakeStep1 WakeStep2 WakeStep3 WakeStep4 CoverStep WakeStep5 Task TaskInv.
 #[global] Unset Lia Cache.
 
 Definition kickb (s : state) (c : nat) : bool := default false (kicks s !! c).
@@ -102,11 +102,20 @@ Ltac solve_sress :=
   rewrite ?sress_addlog, ?sress_setf, ?sress_setev, ?sress_setdw, ?sress_setdbl, ?sress_settoken, ?sress_setkick;
   rewrite ?sress_addlog, ?sress_setf, ?sress_setev, ?sress_setdw, ?sress_setdbl, ?sress_settoken, ?sress_setkick;
   reflexivity.
+Definition evmono (s s' : state) : Prop :=
+  forall e w, (forall c, w <> WTask c) -> (getev s e).(fired) = false -> w ∈ (getev s e).(wakers) -> (getev s' e).(fired) = false /\ w ∈ (getev s' e).(wakers).
+Lemma evmono_task s s' : evs_task_eq s s' -> evmono s s'.
+Proof. intros H e w Hw Hf Hin. destruct (H e) as [-> Hi]. split; [done|]. by apply Hi. Qed.
+Lemma evmono_alloc s (s' : state) l : s'.(evs) = s.(evs) ++ l -> evmono s s'.
+Proof.
+  intros H e w _ Hf Hin. assert (Hlt : e < length (evs s)) by (by apply getev_fired_range).
+  unfold getev in *. by rewrite H, lookup_app_l.
+Qed.
 Ltac cvp_side Hst He :=
   [> exact Hst | solve_stacks
   | intros ?fr ?Hin; rewrite ?elem_of_app, ?elem_of_cons; solve [repeat (first [exact Hin | right])]
   | intros ?fr ?Hin; repeat (apply elem_of_cons in Hin as [->|Hin]; [reflexivity|]); by apply elem_of_nil in Hin
-  | intros ?e ?w ?H1 ?H2; split; assumption
+  | first [ intros ?e ?w _ ?H1 ?H2; split; assumption | apply evmono_task; first [apply evs_reg_task | apply evs_unreg_task | eapply evs_task_eq_trans; [apply evs_reg_task|apply evs_reg_task] ] | eapply evmono_alloc; reflexivity ]
   | first [intros ?d; reflexivity | apply getdw_app_c; reflexivity]
   | first [intros ?k _; reflexivity | eapply getdbl_app_c; reflexivity]
   | exact He ].
@@ -243,6 +252,11 @@ Section KW.
                 left; revert Hw; apply wakeq_eq; [reflexivity|intros e0 He; exact (cv_wake_double_none _ _ _ _ _ Hst E He)] end).
     all: try (lazymatch goal with Hst : stacks _ !! _ = Some (FFire _ :: _) |- wakeq _ = true \/ _ =>
                 left; revert Hw; apply wakeq_eq; [reflexivity|intros e0 He; exact (cv_fire _ _ _ _ _ Hst He)] end).
+    (* a oneshot of future_sync fires on its owner's thread *)
+    all: try (lazymatch goal with |- wakeq (setstack (setev (addlog ?s0 ?l0) _ _) _ (wake_frames _ ++ ?rest0)) = true \/ _ =>
+                left; revert Hw; apply wakeq_eq; [reflexivity|intros e0 He; exact (cv_fire_gen (addlog s0 l0) a _ [] _ rest0 e0 Hst eq_refl He)] end).
+    all: try (lazymatch goal with |- wakeq (setstack (setev _ _ _) _ (wake_frames _ ++ ?x :: ?rest0)) = true \/ _ =>
+                left; revert Hw; apply wakeq_eq; [reflexivity|intros e0 He; exact (cv_fire_gen s a _ [x] _ rest0 e0 Hst eq_refl He)] end).
     (* WakeQueue *)
     all: try (lazymatch goal with E : t_wake_queue _ _ = (_, _) |- wakeq _ = true \/ _ => cbn in Hcl; subst;
        pose proof (cc_wq _ HC _ _ _ E Hcl) as Hc; try discriminate Hc;
